@@ -182,7 +182,9 @@ static void a_case(uint64_t idx, void *ctx)
     char *av[24], *orig[24]; int ac = 0; av[ac++] = mc_heapstr("prog");
     for (int i = 0; i < l.n; i++) for (int t = 0; t < 3 && ITEMS[l.it[i]].tok[t]; t++) av[ac++] = mc_heapstr(ITEMS[l.it[i]].tok[t]);
     char **argv = malloc(sizeof(char *) * (size_t) (ac + 1)); memcpy(argv, av, sizeof(char *) * (size_t) ac); argv[ac] = NULL; memcpy(orig, av, sizeof(char *) * (size_t) ac);
-    SPIFOPT_OPTLIST_SET(OPTS); SPIFOPT_NUMOPTS_SET(NOPT); SPIFOPT_ALLOWBAD_SET(0); SPIFOPT_BADOPTS_SET(0); SPIFOPT_HELPHANDLER_SET(help_stub);
+    /* history: in half of the cases an earlier command line of this process left the bad-option count above the limit (the parser never resets it) */
+    unsigned char bad0 = (unsigned char) (((idx >> 3) % 2) ? 5 : 0);
+    SPIFOPT_OPTLIST_SET(OPTS); SPIFOPT_NUMOPTS_SET(NOPT); SPIFOPT_ALLOWBAD_SET(0); SPIFOPT_BADOPTS_SET(bad0); SPIFOPT_HELPHANDLER_SET(help_stub);
     spifopt_settings.flags = 0;
     if (l.remove) SPIFOPT_FLAGS_SET(SPIFOPT_SETTING_REMOVE_ARGS);
     exp_t e; memset(&e, 0, sizeof e); e.flags = 0xf0;
@@ -198,7 +200,7 @@ static void a_case(uint64_t idx, void *ctx)
     spifopt_parse(ac, argv);
     expect_pass(&l, 0, &e);
     compare(&e, "after the normal pass", shape);
-    if (SPIFOPT_BADOPTS_GET() || g_help_calls) FAIL("spifopt_parse", "model:bad-option-on-wellformed-line", shape, "%d bad options / %d help calls on a well-formed line", (int) SPIFOPT_BADOPTS_GET(), g_help_calls);
+    if (SPIFOPT_BADOPTS_GET() != bad0 || g_help_calls) FAIL("spifopt_parse", "model:bad-option-on-wellformed-line", shape, "bad-option count went from %d to %d, %d help calls on a well-formed line", (int) bad0, (int) SPIFOPT_BADOPTS_GET(), g_help_calls);
     /* argv afterwards */
     if (l.remove) {
         char *want[24]; int nw = 0; want[nw++] = orig[0]; int pos = 1, stop = 0;
@@ -323,7 +325,7 @@ static void d_highbit(uint64_t k)
 {
     static spifopt_t one[2]; static const unsigned char L[2] = { 0xE9, 0x80 };
     const char *shape = "short letter with the high bit set"; mc_set_shape(shape);
-    spifopt_t t[2] = { SPIFOPT_BOOL((char) 0xE9, "eacute", "d", d_flags, 0x4), SPIFOPT_INT((char) 0x80, "euro", "d", d_int) };
+    spifopt_t t[2] = { SPIFOPT_BOOL((char) 0xE9, "eacute", "d", d_flags, 0x80000004UL), SPIFOPT_INT((char) 0x80, "euro", "d", d_int) };       /* the mask uses bit 31 of its 32-bit field */
     one[0] = t[0]; one[1] = t[1];
     d_flags = 0xf0; d_int = 0;
     char sw[3] = { '-', (char) L[k % 2], 0 };
@@ -332,7 +334,7 @@ static void d_highbit(uint64_t k)
     SPIFOPT_OPTLIST_SET(one); SPIFOPT_NUMOPTS_SET(2); SPIFOPT_ALLOWBAD_SET(9); SPIFOPT_BADOPTS_SET(0); SPIFOPT_HELPHANDLER_SET(help_stub);
     spifopt_settings.flags = (k / 2) ? SPIFOPT_SETTING_REMOVE_ARGS : 0;
     spifopt_parse(ac, argv);
-    if (k % 2 ? d_int != 7 : d_flags != 0xf4) FAIL("spifopt_parse", "model:high-bit-letter", shape, "-\\x%02x %s: flags=0x%lx int=%d, %u bad options", L[k % 2], k % 2 ? "7" : "", d_flags, d_int, (unsigned) SPIFOPT_BADOPTS_GET());
+    if (k % 2 ? d_int != 7 : d_flags != 0x800000f4UL) FAIL("spifopt_parse", "model:high-bit-letter", shape, "-\\x%02x %s: flags=0x%lx int=%d, %u bad options", L[k % 2], k % 2 ? "7" : "", d_flags, d_int, (unsigned) SPIFOPT_BADOPTS_GET());
     if (SPIFOPT_BADOPTS_GET()) FAIL("spifopt_parse", "model:bad-option-on-wellformed-line", shape, "%u bad options for a letter that is in the table", (unsigned) SPIFOPT_BADOPTS_GET());
     if ((k / 2) && argv[1] != NULL) FAIL("spifopt_parse", "model:argv-after-removal", shape, "the option was not removed from argv");
     for (int i = 0; i < ac; i++) free(orig[i]);
